@@ -50,7 +50,7 @@ var configs = map[string]propCfg{
 		Quick:    tierCfg{Shards: 8, Checks: 60, Limit: qLimit},
 		Thorough: tierCfg{Shards: 16, Checks: 1000, Limit: tLimit, Chunk: 200},
 		Floor:    50,
-		Rule: "histories: a pool of 2-6 generated packages, a long-lived set (67 hand-written + 0-6 drawn embedded-rule checkers; all 107 in 1 case of 20), 2-30 (package,file) visits in drawn order with repeats, " +
+		Rule: "histories: a pool of 2-6 generated packages, a long-lived set (67 hand-written + 0-6 drawn embedded-rule checkers; all 107 in 1 case of 20), 2-30 (package,file) visits in drawn order with repeats (one step in three sweeps all files of a package in file order; one split in three cuts a kernel file at declaration boundaries and keeps the order), " +
 			"driven exactly like the CLI (SetPackageInfo on package change, SetFileInfo, Check). Oracle: every visit equals a freshly created set on the same file. " +
 			"Non-trivial = a visit in which a checker with per-file scratch state fired after an earlier visit with diagnostics; distinct by pool+visit sequence.",
 		Assumptions: []string{wellTyped, "the fresh baseline uses the same syntax-tree objects (tree mutation is C05's subject)"},
@@ -107,7 +107,7 @@ var configs = map[string]propCfg{
 		Floor:    150,
 		NeedBins: true,
 		Rule: "complete enumeration (exhaustive) of: every rule group and rule of checkers/rules/rules.go, re-compiled in memory with the pipeline of precompile.go and compared structurally with rulesdata.PrecompiledRules; " +
-			"the bijection rule group <-> registered embedded checker with equal name/tags/summary/before/after/note; every row of docs/overview.md against the live registry and the default-selection rule; the output of `doc` of both CLIs; " +
+			"the bijection rule group <-> registered embedded checker with equal name/tags/summary/before/after/note; every row of docs/overview.md against the live registry and the default-selection rule; the output of `doc` of both CLIs; 21 registration histories (list / construct checkers before and after InitEmbeddedRules, each in a fresh process) against the model 'before: the hand-written checkers, after: the full registry, entry by entry'; " +
 			"and a behavioural differential (engine loaded from source vs engine loaded from the shipped IR) over every file of the example corpus. A generated self-test (rapid) applies random one-character edits to string literals of the rule source in memory and requires the comparator to notice. " +
 			"Non-trivial = every compared group / rule / checker / documentation row / corpus file with reports; distinct by name.",
 		Assumptions: []string{"structural equality decides; a re-formatted but equal data file is not an alarm", "irconv/ruleguard of the module cache are the compilers of record"},
